@@ -383,3 +383,15 @@ func BadF1LastUpperOnly(p []byte) byte {
 	}
 	return p[len(p)-1]
 }
+
+// F3 (len-relative cut): dropping the last element of a slice that may be empty.
+func BadF3Pop(buf []int) []int {
+	return buf[:len(buf)-1]
+}
+
+func GoodF3Pop(buf []int) []int {
+	if len(buf) == 0 {
+		return buf
+	}
+	return buf[:len(buf)-1]
+}
